@@ -199,6 +199,8 @@ pub fn gen_workspace2(rng: &mut Rng, rich: bool, max_patches: usize, allow_fail:
     let mut tree = Snap::new();
     for (n, f) in &gt { tree.insert(n.as_bytes().to_vec(), Entry::File(f.mode & 0o7777, f.lines.concat())); }
     if rng.chance(10) { tree.insert(b"emptydir".to_vec(), Entry::Dir); }
+    // (rarely) a directory where a reject file would have to go: writing that reject fails for real
+    if rng.chance(2) { if let Some(n) = gt.keys().next().cloned() { tree.insert(format!("{}.rej", n).into_bytes(), Entry::Dir); } }
     let np = 1 + rng.below(max_patches);
     let mut series = Vec::new();
     let mut names = Vec::new();
@@ -239,7 +241,17 @@ pub fn gen_options(rng: &mut Rng, threads: &[usize]) -> Vec<String> {
     if rng.chance(25) { o.push("--mmap".into()); }
     if rng.chance(10) { o.push("--stats".into()); }
     match rng.below(10) { 0 => { o.push("--color".into()); o.push("always".into()); } 1 => { o.push("--color".into()); o.push("never".into()); } _ => {} }
-    if rng.chance(10) { o.push("-A".into()); o.push("multiapply".into()); }
+    if rng.chance(10) { o.push("-A".into()); o.push(rng.pick(&["multiapply", "multiapply", "MultiApply"]).to_string()); }
+    // (rarely) an option value the tool must refuse: exit 1, nothing touched
+    if rng.chance(2) {
+        match rng.below(5) {
+            0 => { o.push("--backup".into()); o.push("sometimes".into()); }
+            1 => { o.push("--backup-count".into()); o.push("many".into()); }
+            2 => { o.push("--color".into()); o.push("maybe".into()); }
+            3 => { o.push("-A".into()); o.push("nosuch".into()); }
+            _ => { o.push("--nosuchoption".into()); }
+        }
+    }
     o
 }
 
